@@ -35,17 +35,43 @@ def run(ctx):
                   "a changed layout switches method and layout; option changes take effect at once")
     ue = prog.fn_named("update_engine", self_ty=ctx_ty)
     nw = prog.fn_named("new_with_config", self_ty=ctx_ty)
-    b = prog.body(ue)
-    nb = prog.body(nw)
-    # constructor used at creation
-    mctor = None
-    for (bb, t) in nb.calls():
-        n = callee_name(t)
-        if n in prog.fns and "dyn context::Method" in (prog.fns[n].get("output") or ""):
-            mctor = n
-    lc = [(bb, t) for (bb, t) in b.calls() if callee_name(t).startswith("config::Config::") and prog.fns.get(callee_name(t), {}).get("output") == "bool"]
-    if not mctor or len(lc) != 1:
-        r1.undecidable("shape", "method constructor / layout comparison not found (ctor %s, %d comparisons)" % (mctor, len(lc)), common.fn_line(prog, ue))
+    # both functions with the private method factory spliced in (it may also be written out in place)
+    from . import roles as _roles
+    dyn_inherent = {k for k, f in prog.fns.items() if ((f.get("impl") or {}).get("self") or "").startswith("(dyn ") and not (f.get("impl") or {}).get("trait")}
+    b = _roles.ib(prog, ue, allow=dyn_inherent)
+    nb = _roles.ib(prog, nw, allow=dyn_inherent)
+    struct_ctors = {}
+    for ty_ in prog.method_structs():
+        k_ = prog.fn_named("new", self_ty=ty_, required=False)
+        if k_:
+            struct_ctors[k_] = ty_
+
+    def factory_summary(body, skip_switch=None):
+        """{(method struct, polarity of is_phonetic())} + the config each is built from + other guards."""
+        summ, cfg_roots, sel_roots, extras, sites_ = set(), set(), set(), [], []
+        for (bb_, t_) in body.calls():
+            n_ = callee_name(t_)
+            if n_ not in struct_ctors:
+                continue
+            sites_.append(bb_)
+            pol_ = None
+            for (d_, p_, s_) in guards_of(body, bb_):
+                if s_ == skip_switch:
+                    continue
+                if d_.k == "call" and d_.a[0].endswith("Config::is_phonetic"):
+                    pol_ = p_
+                    sel_roots.add(repr(apath(peel_conv(d_.a[1][0]))[0]))
+                else:
+                    extras.append((d_, p_))
+            summ.add((struct_ctors[n_], pol_))
+            cfg_roots.add(repr(apath(peel_conv(body.expr_operand(t_["args"][0])))[0]))
+        return summ, cfg_roots, sel_roots, extras, sites_
+    mctor = "the method factory"
+    lc = [(bb, t) for (bb, t) in b.calls() if callee_name(t).startswith("config::Config::") and prog.fns.get(callee_name(t), {}).get("output") == "bool"
+          and not callee_name(t).endswith("Config::is_phonetic")]
+    created, c_cfg, c_sel, c_extra, _ = factory_summary(nb)
+    if len(created) < 2 or len(lc) != 1:
+        r1.undecidable("shape", "method construction at creation / layout comparison not found (%s, %d comparisons)" % (sorted(created), len(lc)), common.fn_line(prog, ue))
     else:
         lbb, lt = lc[0]
         la = [peel_conv(x) for x in b.call_args(lt)]
@@ -53,26 +79,29 @@ def run(ctx):
             r1.ok("compare-args", "layout_changed(self.config, new config)")
         else:
             r1.violation("compare-args", "the layout comparison is between %r and %r, expected the stored and the new configuration" % (la[0], la[1]), site_of(b, lbb))
-        repl = [(bb, t) for (bb, t) in b.calls() if callee_name(t) == mctor]
         refresh = [(bb, t) for (bb, t) in b.calls() if (t.get("callee") or {}).get("rkind") == "virtual" and (t.get("callee") or {}).get("name") == "update_engine"]
         sw = [s for s in b.rblocks if b.blocks[s]["term"]["k"] == "switch" and contains_call(strip_refs(b.expr_operand(b.blocks[s]["term"]["discr"])), lambda n: n == callee_name(lt))]
-        if len(repl) == 1 and len(refresh) == 1 and len(sw) == 1:
-            g1 = [(pol) for (d, pol, s) in guards_of(b, repl[0][0]) if s == sw[0]]
+        if len(refresh) == 1 and len(sw) == 1:
+            updated, u_cfg, u_sel, u_extra, u_sites = factory_summary(b, sw[0])
+            g1 = sorted({pol for bb_ in u_sites for (d, pol, s) in guards_of(b, bb_) if s == sw[0]}, key=str)
             g2 = [(pol) for (d, pol, s) in guards_of(b, refresh[0][0]) if s == sw[0]]
-            extra1 = [(d, pol) for (d, pol, s) in guards_of(b, repl[0][0]) if s != sw[0]]
             extra2 = [(d, pol) for (d, pol, s) in guards_of(b, refresh[0][0]) if s != sw[0]]
-            arg_ok = strip_refs(b.expr_operand(repl[0][1]["args"][0])).k == "arg" and strip_refs(b.expr_operand(refresh[0][1]["args"][1])).k == "arg"
+            new_cfg = repr(E("arg", 2))
+            arg_ok = u_cfg == {new_cfg} and u_sel <= {new_cfg} and strip_refs(b.expr_operand(refresh[0][1]["args"][1])).k == "arg"
             # the new object must be stored into the method field (RefCell::replace / assignment)
-            stored = any(self_path(b.expr_operand(t["args"][0])) == (meth_field[0],) and contains_call(b.expr_operand(t["args"][1]), lambda n: n == mctor)
+            stored = any(self_path(b.expr_operand(t["args"][0])) == (meth_field[0],) and contains_call(b.expr_operand(t["args"][1]), lambda n: n in struct_ctors)
                          for (bb, t) in b.calls() if callee_name(t).endswith("RefCell::<T>::replace") or callee_name(t).endswith("mem::replace")) or \
                 any(w["op"] == "assign" and w["fields"][:1] == (meth_field[0],) for w in direct_writes(b))
-            if g1 == [True] and g2 == [False] and not extra1 and not extra2 and arg_ok and stored:
-                r1.ok("branches", "changed ⇒ method := %s(new config); unchanged ⇒ method.update_engine(new config)" % mctor.split("::")[-1])
+            if updated != created:
+                r1.violation("branches", "a changed layout builds the method as %s, creation builds it as %s — the replaced method is not the one a new context would get"
+                             % (sorted(updated, key=str), sorted(created, key=str)), site_of(b, sw[0]))
+            elif g1 == [True] and g2 == [False] and not u_extra and not extra2 and arg_ok and stored:
+                r1.ok("branches", "changed ⇒ method := the creation-time choice (is_phonetic ? phonetic : fixed) on the new config; unchanged ⇒ method.update_engine(new config)")
             else:
-                r1.violation("branches", "replacement / refresh are not exactly the two sides of the layout test (guards %s / %s, extra %s %s, stored %s)"
-                             % (g1, g2, extra1, extra2, stored), site_of(b, sw[0]))
+                r1.violation("branches", "replacement / refresh are not exactly the two sides of the layout test (guards %s / %s, extra %s %s, built from %s, stored %s)"
+                             % (g1, g2, u_extra, extra2, sorted(u_cfg | u_sel), stored), site_of(b, sw[0]))
         else:
-            r1.violation("branches", "expected one replacement by %s and one refresh call, found %d / %d" % (mctor, len(repl), len(refresh)), common.fn_line(prog, ue))
+            r1.violation("branches", "expected one refresh call and one layout test, found %d / %d" % (len(refresh), len(sw)), common.fn_line(prog, ue))
         # config stored on every path
         cw = [w for w in direct_writes(b) if w["op"] == "assign" and w["root"].k == "arg" and w["root"].a[0] == 1 and w["fields"] == (cfg_field[0],)]
         good = [w for w in cw if b.postdominates(w["bb"], 0) and peel_conv(b.expr_rvalue(w["rv"])).k == "arg" and peel_conv(b.expr_rvalue(w["rv"])).a[0] == 2]
